@@ -226,6 +226,11 @@ SUITES = {
     "score": suite_score,
     "evaluate": suite_evaluate,
 }
+# stream F: the chord fixture files (real interval grids and label vocabularies)
+from suites import fixtures as _FX  # noqa: E402
+if "chord" in _FX.SUITES:
+    SUITES["fixtures.chord"] = _FX.SUITES["chord"]
+RULE += "; " + _FX.RULE_NOTE
 
 
 # ----------------------------------------------------------------------------------------
@@ -456,6 +461,12 @@ def classify(suite, d):
         cs, ws = i["cs"], i["ws"]
         if len(cs) == len(ws) and cs and all(w >= 0 for w in ws):
             return "chord.weighted_accuracy", {"cs": cs, "ws": ws, "scales": [0.5, 2.0]}
+    if suite == "fixtures.chord" and i.get("what") == "root":
+        ref = [[float(Fr(a)), float(Fr(b))] for a, b in i["ref"]]
+        est = [[float(Fr(a)), float(Fr(b))] for a, b in i["est"]]
+        return "chord.evaluate:refine", {"ref": ref, "ref_labels": i["ref_labels"], "est": est,
+                                        "est_labels": i["est_labels"], "ref_cuts": [(s + e) / 2 for s, e in ref],
+                                        "est_cuts": [(s + e) / 2 for s, e in est]}
     if suite in ("score", "evaluate"):
         ref, est = i["ref"], i["est"]
         if ref and est:
